@@ -219,10 +219,16 @@ impl Request {
         if let Some(content_length) = headers.get(&HeaderType::ContentLength) {
             let content_length: usize =
                 content_length.parse().map_err(|_| RequestError::Request)?;
-            let mut content_buf: Vec<u8> = vec![0u8; content_length];
+            // The claimed length is not trusted: the buffer only grows with the data actually received.
+            let mut content_buf: Vec<u8> = Vec::new();
             reader
-                .read_exact(&mut content_buf)
+                .by_ref()
+                .take(content_length as u64)
+                .read_to_end(&mut content_buf)
                 .map_err(|_| RequestError::Stream)?;
+            if content_buf.len() != content_length {
+                return Err(RequestError::Stream);
+            }
 
             Ok(Self {
                 method,
@@ -320,11 +326,16 @@ impl Request {
         if let Some(content_length) = headers.get(&HeaderType::ContentLength) {
             let content_length: usize =
                 content_length.parse().map_err(|_| RequestError::Request)?;
-            let mut content_buf: Vec<u8> = vec![0u8; content_length];
-            reader
-                .read_exact(&mut content_buf)
+            // The claimed length is not trusted: the buffer only grows with the data actually received.
+            let mut content_buf: Vec<u8> = Vec::new();
+            (&mut reader)
+                .take(content_length as u64)
+                .read_to_end(&mut content_buf)
                 .await
                 .map_err(|_| RequestError::Stream)?;
+            if content_buf.len() != content_length {
+                return Err(RequestError::Stream);
+            }
 
             Ok(Self {
                 method,
